@@ -15,7 +15,7 @@ RULE = (
     "Two generated sub-checks. (kernel) map_coordinates(input, coordinates) for rank 1-4, axis sizes 2-5, float "
     "and integer inputs, scalar or batched coordinates drawn from {integers in range, uniform in range, up to 2 "
     "cells outside}: compared with a NumPy corner-sum reference (lower index clipped to [0,n-2], unclipped "
-    "weights), 1e-9 relative; integer coordinates must return the entries. (grid) LinspaceGrid/LogspaceGrid over "
+    "weights), 1e-9 relative; integer coordinates must return the entries; in 3 cases of 7 the coordinates are whole numbers given in an integer type (int32 / int64 arrays, Python ints), inside and outside the index range. (grid) LinspaceGrid/LogspaceGrid over "
     "12 orders of magnitude of start/stop, n=2..200, values anywhere (linear) / inside the range (log), plus probes at relative distance 1e-6 and 3e-8 from nodes; for 2 linear-grid cases in 5 the values are whole numbers passed as int32/int64 arrays, scalar, "
     "vmapped and jitted: coordinate(node_i) = i for the first and the last nodes and for the stop bound itself (1e-9 abs), coordinates strictly increasing for values whose gap "
     "exceeds 1e-9 of the range (and never decreasing beyond 1e-12), and map_coordinates(nodes, coordinate(x)) = x "
